@@ -1,2 +1,62 @@
-From OCV Require Export Cases.Pool.
-Definition judge := judge_with po_c02.
+From OCV Require Export Cases.Pool Sched.JoinHandle.
+From Coq Require Import String.
+Open Scope string_scope.
+
+(** join-handle cases: per task its outcome and the joins made on its handle; each join with what
+    the harness saw (finished before the call / only after it) and what the call returned *)
+Record jjoin := { jo_join : jhjoin; jo_ambiguous : bool; jo_impl : jhres }.
+Record jtask := { jt_res : tres; jt_joins : list jjoin }.
+Record jcase := { jc_tasks : list jtask }.
+
+Definition jhres_eqb (a b : jhres) : bool :=
+  match a, b with
+  | JHVal x, JHVal y => tres_eqb x y | JHTimedOut, JHTimedOut => true | JHInvalid, JHInvalid => true | _, _ => false
+  end.
+
+(** model against implementation, join by join; a join during which the task finished may go either way *)
+Fixpoint jt_corr (r : tres) (consumed : bool) (js : list jjoin) : bool :=
+  match js with
+  | [] => true
+  | j :: rest =>
+      if jo_ambiguous j && negb consumed then
+        match jo_impl j with
+        | JHVal v => tres_eqb v r && jt_corr r true rest
+        | JHTimedOut => jt_corr r consumed rest
+        | JHInvalid => false
+        end
+      else
+        let '(o, c) := jh_step true r consumed (jo_join j) in
+        jhres_eqb o (jo_impl j) && jt_corr r c rest
+  end.
+
+(** the property, read off the observations alone: a value handed out is the task's own outcome and
+    is handed out once; a join made after the task finished (and before its result was handed out)
+    returns it whatever its deadline; a timeout is reported only for a task that had not finished *)
+Fixpoint jt_prop (r : tres) (handed : bool) (js : list jjoin) : bool :=
+  match js with
+  | [] => true
+  | j :: rest =>
+      let fin_before := match jj_fin_at (jo_join j) with Some f => f <=? jj_now (jo_join j) | None => false end%Z in
+      match jo_impl j with
+      | JHVal v => tres_eqb v r && negb handed && jt_prop r true rest
+      | JHTimedOut => (negb fin_before || handed) && jt_prop r handed rest
+      | JHInvalid => false
+      end
+  end.
+
+Definition judge_join (c : jcase) : verdict :=
+  {| v_corr := forallb (fun t => jt_corr (jt_res t) false (jt_joins t)) (jc_tasks c);
+     v_prop := forallb (fun t => jt_prop (jt_res t) false (jt_joins t)) (jc_tasks c);
+     v_tags := ["join_handle"]
+               ++ (if existsb (fun t => existsb (fun j => jhres_eqb (jo_impl j) JHTimedOut) (jt_joins t)) (jc_tasks c) then ["join_timeout"] else [])
+               ++ (if existsb (fun t => existsb (fun j => (jj_deadline (jo_join j) <=? jj_now (jo_join j))%Z
+                                                           && negb (jhres_eqb (jo_impl j) JHTimedOut)) (jt_joins t)) (jc_tasks c)
+                   then ["expired_deadline_value"] else [])
+               ++ (if existsb (fun t => match jt_res t with TErr _ => true | _ => false end) (jc_tasks c) then ["task_panic"] else []);
+     v_note := "" |}.
+
+Definition judge (c : pcase + jcase) : verdict :=
+  match c with
+  | inl p => judge_with po_c02 p
+  | inr j => judge_join j
+  end.
